@@ -37,12 +37,15 @@ type admSpec struct {
 	// sequential reference model is then exact. Otherwise events overlap with the
 	// aftermath of earlier ones and only interleaving-robust invariants are judged.
 	Settle bool `json:"settle_between_events"`
+	// LateSuccess: a cancelled transfer may still return success (it had just
+	// finished when the cancellation arrived), chosen per transfer from the seed.
+	LateSuccess bool `json:"cancelled_transfers_may_succeed,omitempty"`
 }
 
 type admHarness struct{}
 
 func (admHarness) Gen(r *verifsim.SplitMix, tier string, idx int) any {
-	sp := admSpec{Seed: r.Next(), MaxRecv: 1 + r.Intn(3), Settle: r.Chance(1, 2)}
+	sp := admSpec{Seed: r.Next(), MaxRecv: 1 + r.Intn(3), Settle: r.Chance(1, 2), LateSuccess: r.Chance(1, 3)}
 	kinds := []string{"rand", "weighted", "pct", "pct", "fifo"}
 	sp.Strat = verifsim.Strategy{Kind: kinds[r.Intn(len(kinds))], Seed: r.Next(), D: r.Intn(4), Horizon: 200, MaxW: 2 + r.Intn(8)}
 	np := 1 + r.Intn(5)
@@ -91,6 +94,11 @@ func (admHarness) Shrink(spec any) []any {
 	if !sp.Settle {
 		c := sp
 		c.Settle = true
+		out = append(out, c)
+	}
+	if sp.LateSuccess {
+		c := sp
+		c.LateSuccess = false
 		out = append(out, c)
 	}
 	return out
@@ -200,6 +208,9 @@ func (admHarness) Run(spec any) (res verifsim.RunResult) {
 				select {
 				case <-ctx.Done():
 					err = ctx.Err()
+					if sp.LateSuccess && verifsim.Mix(sp.Seed, fmt.Sprint(tr.seq))%2 == 0 {
+						err = nil
+					}
 				case err = <-tr.ctl:
 				}
 				mu.Lock()
